@@ -24,6 +24,18 @@ use serde_json::json;
 fn main() {
     util::silence_panics();
     let args: Vec<String> = std::env::args().collect();
+    if let Err(_) = std::panic::catch_unwind(|| real_main(&args)) {
+        let (loc, msg) = util::LAST_PANIC.lock().map(|g| g.clone()).unwrap_or_default();
+        eprintln!("uncaught panic at {}: {}", loc, msg);
+        if !loc.contains("lmconform/src") && args.len() >= 4 {
+            let _ = std::fs::write(format!("{}.crash", args[3]), json!({"panic_at": loc, "msg": msg}).to_string());
+            std::process::exit(util::LIB_PANIC_EXIT);
+        }
+        std::process::exit(101);
+    }
+}
+
+fn real_main(args: &[String]) {
     if args.len() < 4 {
         eprintln!("usage: lmconform record|replay <PROP> <file> [--seed N] [--thorough]");
         std::process::exit(2);
@@ -47,6 +59,7 @@ fn main() {
     match args[1].as_str() {
         "record" => {
             let mut rec = util::Recorder::create(file);
+            util::start_watchdog(file);
             match prop {
                 "C19" => c19::record(&mut rec, seed, thorough),
                 "C04" => c04::record(&mut rec, seed, thorough),
@@ -72,6 +85,9 @@ fn main() {
                 }
             }
             println!("{}", rec.finish());
+        }
+        "explore" => {
+            if prop == "C13" { dist::explore_c13(seed); }
         }
         "replay" => {
             let out = match prop {
